@@ -115,8 +115,10 @@ def gen_case(rng, lossless=False):
         return None
     k = rng.randint(1, n - 1)
     mons = sorted(rng.sample(range(n), k))
-    ns = 1 if lossless else rng.choice([1, 1, 2, 4])
+    ns = 1 if lossless else rng.choice([1, 1, 2, 3, 4])
     sweep = [Fraction(rng.randint(-8, 8), 8) for _ in range(ns)]
+    if ns >= 3 and rng.random() < 0.35:
+        sweep[-1] = sweep[0]            # periodic sweep: equal end points, different interior
     names = cs.exposed_names(pcirc)
     r = np.random.default_rng(rng.randrange(2 ** 32))
     exc = {nm: complex(round(r.normal(), 3), round(r.normal(), 3)) for nm in names if rng.random() < 0.6}
